@@ -114,7 +114,7 @@ class E2(Component):
     rule = "every arrangement instance is in 'must' (common tokens anywhere in the order)"
 
     def bounds(self, tier):
-        return {"U": 7 if tier == "quick" else 9,
+        return {"U": 7 if tier == "quick" else 10,
                 "measures": ["JACCARD", "COSINE", "DICE", "OVERLAP"]}
 
     def shards(self, tier):
